@@ -25,6 +25,8 @@ type CHOp struct {
 	Cmd     int      `json:"cmd,omitempty"`
 	Exit    int      `json:"exit,omitempty"` // ctl: 0 = succeed, N = `exit N`
 	What    string   `json:"what,omitempty"` // rmcache: dir | file
+	// ViaClean: the run is `spok --clean` (which runs the user's task named clean) instead of `spok clean`
+	ViaClean bool `json:"via_clean,omitempty"`
 }
 
 // CHCase is one case of scenario cachehist.
@@ -57,7 +59,7 @@ func (cachehist) Rule(prop string) string {
 var chTaskNames = []string{"AAAAAA", "BBBBBB", "CCCCCC", "DDDDDD"}
 var chFiles = []string{"a.txt", "b.txt", "src/x.c", "src/y.c", "src/sub/z.c", ".h.txt", "src/.hid.c", "src/n.h", "-d.txt"}
 var chLiteral = []string{"a.txt", "b.txt", "src/x.c", "src/n.h"}
-var chGlobs = []string{"*.txt", "src/*.c", "**/*.c", "src/**", "src/**/*.c", "{a,b}*.txt"}
+var chGlobs = []string{"*.txt", "src/*.c", "**/*.c", "src/**", "src/**/*.c", "{a,b}*.txt", "./*.txt", "./src/*.c"}
 var chContents = []string{"1", "2", "3"}
 var chCwds = []string{"", "", "", "src", "src/sub"}
 var chExits = []int{1, 2, 127, 128, 255}
@@ -96,6 +98,69 @@ func genProgram(r *Rng, maxTasks int) Program {
 	return p
 }
 
+// addWriter turns one task into a generator/formatter that overwrites a literal
+// dependency file of later tasks; every later task reading that file gets a task
+// dependency on the writer, so the order "writer before reader" is determined.
+func addWriter(r *Rng, p *Program) {
+	if len(p.Tasks) < 2 {
+		return
+	}
+	wi := 0 // the first task has no task dependencies, so readers may depend on it without creating a cycle
+	f := Pick(r, chLiteral)
+	p.Tasks[wi].Writes = []FileWrite{{Path: f, Content: Pick(r, []string{"gen1", "gen2"})}}
+	if r.Chance(1, 2) { // formatter style: it also depends on the file it rewrites
+		p.Tasks[wi].Deps = dedupDeps(append(p.Tasks[wi].Deps, Dep{"file", f}))
+	}
+	readers := 0
+	for i := wi + 1; i < len(p.Tasks); i++ {
+		reads := false
+		for _, d := range p.Tasks[i].Deps {
+			if d.Kind == "file" && d.Value == f {
+				reads = true
+			}
+		}
+		if !reads && readers == 0 && i == len(p.Tasks)-1 {
+			p.Tasks[i].Deps = append(p.Tasks[i].Deps, Dep{"file", f})
+			reads = true
+		}
+		if reads {
+			readers++
+			p.Tasks[i].Deps = dedupDeps(append(p.Tasks[i].Deps, Dep{"task", p.Tasks[wi].Name}))
+		}
+	}
+	// no other task may read the file through a glob (the order would be undetermined):
+	// drop globs that could match it
+	for i := range p.Tasks {
+		var ds []Dep
+		for _, d := range p.Tasks[i].Deps {
+			if d.Kind == "glob" && GlobMatch(d.Value, f) {
+				continue
+			}
+			ds = append(ds, d)
+		}
+		p.Tasks[i].Deps = ds
+	}
+	// same dependency list for writer and reader now and then (shared-digest shortcuts)
+	if r.Chance(1, 2) && wi+1 < len(p.Tasks) {
+		var ds []Dep
+		for _, d := range p.Tasks[wi].Deps {
+			if d.Kind != "task" {
+				ds = append(ds, d)
+			}
+		}
+		last := &p.Tasks[len(p.Tasks)-1]
+		var keep []Dep
+		for _, d := range last.Deps {
+			if d.Kind == "task" {
+				keep = append(keep, d)
+			}
+		}
+		if len(ds) > 0 {
+			last.Deps = dedupDeps(append(append(keep, Dep{"task", p.Tasks[wi].Name}), ds...))
+		}
+	}
+}
+
 func dedupDeps(ds []Dep) []Dep {
 	seen := map[Dep]bool{}
 	var out []Dep
@@ -114,6 +179,15 @@ func (cachehist) Gen(r *Rng, cfg GenConfig) any {
 		maxTasks = 4
 	}
 	c := &CHCase{Prog: genProgram(r, maxTasks), Disk: map[string]string{}, Sched: genSched(r)}
+	if cfg.Prop != "nowriters" && r.Chance(1, 5) {
+		addWriter(r, &c.Prog)
+	}
+	hasClean := false
+	if (cfg.Prop == "C09" && r.Chance(1, 3)) || (cfg.Prop != "nowriters" && r.Chance(1, 12)) {
+		// the last task (nothing depends on it) becomes the user's clean task
+		c.Prog.Tasks[len(c.Prog.Tasks)-1].Name = "clean"
+		hasClean = true
+	}
 	for _, f := range chFiles {
 		if r.Chance(3, 5) {
 			c.Disk[f] = Pick(r, chContents)
@@ -265,6 +339,9 @@ func (cachehist) Gen(r *Rng, cfg GenConfig) any {
 			case 2:
 				op.Quiet = true
 			}
+			if hasClean && r.Chance(1, 3) {
+				op.Tasks, op.ViaClean = []string{"clean"}, true
+			}
 			c.Ops = append(c.Ops, op)
 		case k < 14: // write (create / edit / revert, contents come from a pool of 3)
 			emit(CHOp{Op: "write", Path: Pick(r, chFiles), Content: Pick(r, chContents)})
@@ -370,6 +447,32 @@ func (s *projState) logDelta() []string {
 	return d
 }
 
+// diskAt returns the model disk as task n sees it when spok checks it during an
+// invocation: the disk before the invocation plus the files written by those of
+// its (transitive) task dependencies that ran in this invocation. (Readers of a
+// written file always depend on the writer, see addWriter.)
+func (s *projState) diskAt(n string, v runView) map[string]string {
+	deps, _ := s.prog.Closure([]string{n})
+	var ws []FileWrite
+	for _, d := range deps {
+		if d == n || len(v.markers[d]) == 0 {
+			continue
+		}
+		ws = append(ws, s.prog.Task(d).Writes...)
+	}
+	if len(ws) == 0 {
+		return s.disk
+	}
+	out := make(map[string]string, len(s.disk)+len(ws))
+	for k, val := range s.disk {
+		out[k] = val
+	}
+	for _, fw := range ws {
+		out[fw.Path] = fw.Disk()
+	}
+	return out
+}
+
 type runView struct {
 	markers  map[string][]int // task -> command indices seen, in order
 	order    []string         // tasks in order of first marker
@@ -417,6 +520,9 @@ func (s *projState) view(delta []string) runView {
 
 func runArgs(op CHOp) []string {
 	args := append([]string{}, op.Tasks...)
+	if op.ViaClean {
+		args = []string{"--clean"}
+	}
 	if op.Force {
 		args = append(args, "--force")
 	}
@@ -448,9 +554,48 @@ func (s *projState) stateClass(t *TaskDef) string {
 	return fmt.Sprintf("%s/%d/%d%s", rel, min(n, 2), len(missing), fail)
 }
 
+// writersWellFormed: every task that reads (literally or through a glob) a file
+// another task writes must depend on the writer, otherwise the order in which spok
+// checks the reader relative to the write is not determined by the spokfile.
+func writersWellFormed(p *Program) bool {
+	for _, wt := range p.Tasks {
+		for _, fw := range wt.Writes {
+			for _, rt := range p.Tasks {
+				if rt.Name == wt.Name {
+					continue
+				}
+				reads := false
+				for _, d := range rt.Deps {
+					if (d.Kind == "file" && d.Value == fw.Path) || (d.Kind == "glob" && GlobMatch(d.Value, fw.Path)) {
+						reads = true
+					}
+				}
+				if !reads {
+					continue
+				}
+				cl, _ := p.Closure([]string{rt.Name})
+				dep := false
+				for _, n := range cl {
+					if n == wt.Name {
+						dep = true
+					}
+				}
+				if !dep {
+					return false
+				}
+			}
+		}
+	}
+	return true
+}
+
 func (cachehist) Exec(w *World, cc any, prop string) *Result {
 	c := cc.(*CHCase)
 	res := newResult()
+	if !writersWellFormed(&c.Prog) {
+		res.count("skipped_ill_formed_case")
+		return res
+	}
 	s := newProjState(w, &c.Prog, c.Disk)
 	s.logDelta()
 	var kinds []string
@@ -580,7 +725,7 @@ func (s *projState) judgeRun(res *Result, sched Sched, forceBefore bool, oi stri
 	var outcome []string
 	for _, n := range closure {
 		t := s.prog.Task(n)
-		in, nfiles, missing := Inputs(s.prog, t, s.disk)
+		in, nfiles, missing := Inputs(s.prog, t, s.diskAt(n, v))
 		if len(missing) > 0 {
 			anyMissing = true
 		}
@@ -705,7 +850,7 @@ func (s *projState) judgeRun(res *Result, sched Sched, forceBefore bool, oi stri
 			continue
 		}
 		t := s.prog.Task(n)
-		in, _, _ := Inputs(s.prog, t, s.disk)
+		in, _, _ := Inputs(s.prog, t, s.diskAt(n, v))
 		if v.complete[n] {
 			if s.last[n] != nil && *s.last[n] != in && op.Force {
 				res.count("probe:forced_success_on_edited_inputs")
@@ -715,6 +860,15 @@ func (s *projState) judgeRun(res *Result, sched Sched, forceBefore bool, oi stri
 			s.lastFail[n] = false
 		} else {
 			s.lastFail[n] = true
+		}
+	}
+	// files written by the tasks that ran are on the disk now
+	for _, n := range v.order {
+		if t := s.prog.Task(n); t != nil {
+			for _, fw := range t.Writes {
+				s.disk[fw.Path] = fw.Disk()
+				res.count("probe:task_rewrote_an_input_file")
+			}
 		}
 	}
 	return false
@@ -776,6 +930,9 @@ func (cachehist) Shrinks(cc any) []any {
 		if t.Doc != "" {
 			add(func(n *CHCase) { n.Prog.Tasks[ti].Doc = "" })
 		}
+		if len(t.Writes) > 0 {
+			add(func(n *CHCase) { n.Prog.Tasks[ti].Writes = nil })
+		}
 	}
 	// fewer requested tasks, simpler flags, root cwd
 	for oi, op := range c.Ops {
@@ -798,6 +955,9 @@ func (cachehist) Shrinks(cc any) []any {
 		}
 		if op.Force {
 			add(func(n *CHCase) { n.Ops[oi].Force = false })
+		}
+		if op.ViaClean {
+			add(func(n *CHCase) { n.Ops[oi].ViaClean = false })
 		}
 	}
 	// drop initial files
